@@ -52,6 +52,16 @@ MmapLog<'a, ItemType, MAX_STREAMS> {
     }
 }
 
+/// verification only: builds the channel over the given file (checks must not depend on files under /tmp)
+#[cfg(feature = "verif")]
+impl<'a, ItemType:          Send + Sync + Debug + 'a,
+         const MAX_STREAMS: usize>
+MmapLog<'a, ItemType, MAX_STREAMS> {
+    pub fn verif_from_file(mmap_file_path: &str) -> Arc<Self> {
+        Self::from_file(mmap_file_path).unwrap()
+    }
+}
+
 impl<'a, ItemType:          Send + Sync + Debug + 'a,
          const MAX_STREAMS: usize>
 ChannelCommon<ItemType, &'static ItemType> for
